@@ -42,6 +42,11 @@ C03_CLAUSES = {
 }
 
 
+# the judge's diagnoses (JudgeMeshHist!Diag) and the clause each belongs to
+DIAG_OF = {"FaceEdgeJoins": "FaceEdgeBeforeCorner", "FaceFacePadding": "FaceFaceGaps", "NodeFacePadding": "NodeFaceGaps",
+           "EdgeFacePadding": "EdgeFaceGaps", "HoleEdges": "HolesFromSecondSlot"}
+
+
 def clause_prop(clause):
     if clause in C02_CLAUSES:
         return "C02"
@@ -56,10 +61,10 @@ def clause_prop(clause):
 
 
 # ----------------------------------------------------------------------------- model
-def order_cfg(scns, mech, obs="all", select=True, maxpre=99, track=False, invs=PROPS_OF_MODEL):
+def order_cfg(scns, mech, obs="all", select=True, maxpre=99, track=False, invs=PROPS_OF_MODEL, dual=True):
     return (
-        "INIT Init\nNEXT Next\nCONSTANTS\n Scns = {%s}\n Mech = \"%s\"\n ObsName = \"%s\"\n WithSelect = %s\n MaxPre = %d\n TrackHist = %s\n"
-        % (",".join('"%s"' % s for s in scns), mech, obs, "TRUE" if select else "FALSE", maxpre, "TRUE" if track else "FALSE")
+        "INIT Init\nNEXT Next\nCONSTANTS\n Scns = {%s}\n Mech = \"%s\"\n ObsName = \"%s\"\n WithSelect = %s\n WithDual = %s\n MaxPre = %d\n TrackHist = %s\n"
+        % (",".join('"%s"' % s for s in scns), mech, obs, "TRUE" if select else "FALSE", "TRUE" if dual else "FALSE", maxpre, "TRUE" if track else "FALSE")
         + "".join("INVARIANT %s\n" % i for i in invs)
         + "CHECK_DEADLOCK FALSE\n"
     )
@@ -87,7 +92,7 @@ def model_check(ctx):
     return proved, refuted
 
 
-def gen_orders(ctx, obs, select=False, maxpre=0, simulate=None, seed=None, scn="fan"):
+def gen_orders(ctx, obs, select=False, maxpre=0, simulate=None, seed=None, scn="fan", dual=False):
     """Histories from MeshOrder with the order in the state: every permutation of the observables (model
     checking mode) or random behaviours (-simulate).  -> list of [[kind, arg], ...]"""
     kw = {}
@@ -95,8 +100,8 @@ def gen_orders(ctx, obs, select=False, maxpre=0, simulate=None, seed=None, scn="
         kw = dict(simulate="num=%d" % simulate, depth=60, seed=seed)
     r = ctx.tlc_ok(
         "MeshOrder",
-        order_cfg([scn], "intended", obs=obs, select=select, maxpre=maxpre, track=True, invs=["Emit"]),
-        what="observation orders over %s%s%s" % (obs, " with a selection" if select else "", " (-simulate %d)" % simulate if simulate else " (all permutations)"),
+        order_cfg([scn], "intended", obs=obs, select=select, maxpre=maxpre, track=True, invs=["Emit"], dual=dual),
+        what="observation orders over %s%s%s%s" % (obs, " with a selection" if select else "", " then the dual" if dual else "", " (-simulate %d)" % simulate if simulate else " (all permutations)"),
         workers=4,
         count=not simulate,
         timeout=900,
@@ -247,6 +252,8 @@ def make_case(prop, cid, src, hist, rng, sup=(), eo=None, via="topology", extra_
             case["mpasd"] = mpas
         if sel:
             req["sel"] = _sel(rng, sel[0][1])
+            if family == "dual":
+                req["sel"]["q"] = 3  # keep about three quarters: a dual face needs a node with three faces
     return case, req
 
 
@@ -267,13 +274,20 @@ def replay_many(cases):
 
 
 # ----------------------------------------------------------------------------- verdicts
-def sig_of(case, clause, sub):
-    sig = {"clause": clause.split("(")[0] if clause.startswith("Stable(") else clause, "family": case["family"], "via": case["via"], "grid": "selected" if sub else "constructed"}
+def sig_of(case, clause, sub, failed=()):
+    """Abstract signature of a violation: the clause, where it happened, and - decided by TLC - the whole
+    pattern of clauses the record fails plus the judge's diagnoses (known findings match on these)."""
+    sig = {"clause": clause.split("(")[0] if clause.startswith("Stable(") else clause, "family": case["family"], "via": case["via"], "grid": sub or "constructed"}
     if clause.startswith("Stable(") or "=shape(" in clause:
         sig["what"] = clause
     if "mpasd" in case:
+        sig["source"] = "mpas"
         for k in ("eoc", "covz", "coez"):
             sig[k] = case["mpasd"][k]
+    if failed:
+        sig["pattern"] = "+".join(sorted(c for c in failed if not c.startswith("diag:")))
+        d = DIAG_OF.get(clause)
+        sig["diag"] = d if d and ("diag:" + d) in failed else ""
     return sig
 
 
@@ -283,26 +297,39 @@ def report(ctx, prop, cases, recs, failed, errs):
     other = {}
 
     def owner(rid):
-        return by_id[rid[:-4]] if rid.endswith("/sub") else by_id[rid]
+        return by_id[rid.split("|")[0]]
+
+    def mine(cl):
+        """the clauses of THIS property a record fails (+ diagnoses): the pattern a known finding is matched by"""
+        return [x for x in cl if x.startswith("diag:") or x == "StdTypes" or clause_prop(x) == prop]
 
     def replay_of(c, rid):
         r = {k: c[k] for k in c if k not in ("lon", "lat", "dirs")}
         r["record"] = rid
         return r
 
+    kinds = {r["id"]: r.get("error_kind") for r in recs if "error" in r}
+    derive = [rid for rid in errs if kinds.get(rid) == "derive"]
+    if derive:
+        print("NOTE: %d derivations (isel / get_dual) raised; not a verdict of this property, e.g. %s: %s" % (len(derive), derive[0], errs[derive[0]]))
+    ctx.note("derivations_raised", len(derive))
     for rid, msg in errs.items():
+        if kinds.get(rid) == "derive":
+            continue
         c = owner(rid)
-        ctx.violation(rid, "Raises", detail=msg, replay=replay_of(c, rid), sig=sig_of(c, "Raises", rid.endswith("/sub")))
+        ctx.violation(rid, "Raises", detail=msg, replay=replay_of(c, rid), sig=sig_of(c, "Raises", rid.partition("|")[2]))
     for rid, cl in failed.items():
         c = owner(rid)
         for clause in sorted(cl):
+            if clause.startswith("diag:"):
+                continue
             p = clause_prop(clause)
             if clause == "StdTypes":
                 p = prop
             if p != prop:
                 other.setdefault(clause.split("(")[0], []).append(rid)
                 continue
-            ctx.violation(rid, clause, detail={"failed": sorted(cl)}, replay=replay_of(c, rid), sig=sig_of(c, clause, rid.endswith("/sub")))
+            ctx.violation(rid, clause, detail={"failed": sorted(cl)}, replay=replay_of(c, rid), sig=sig_of(c, clause, rid.partition("|")[2], mine(cl)))
     if other:
         print("NOTE: clauses of the sibling property failed on %d records of this run (reported by its own check): %s" % (
             sum(len(v) for v in other.values()), {k: len(v) for k, v in sorted(other.items())}))
@@ -323,6 +350,8 @@ def run_histories(ctx, prop, cases, reqs):
     for c in cases:
         c["workdir"] = ctx.work
     recs = [r for rs in replay_many(cases) for r in rs]
+    ctx.note("derived_grids_without_faces_not_judged", sum(1 for r in recs if "outside" in r))
+    recs = [r for r in recs if "outside" not in r]
     keep_flags(recs, prop)
     failed, _, errs = mc.judge(ctx, recs, module="JudgeMeshHist", workers=4, tag="hist")
     report(ctx, prop, cases, recs, failed, errs)
@@ -338,9 +367,17 @@ def assemble(ctx, prop, rng, thorough, scope):
     sims = gen_orders(ctx, "all", simulate=1500 if thorough else 300, seed=ctx.seed)
     sels = gen_orders(ctx, "all", select=True, maxpre=3, simulate=4000 if thorough else 900, seed=ctx.seed + 1)
     sels = [h for h in sels if any(s[0] == "select" for s in h)]
-    ctx.note("orders", {"core_permutations": len(perms), "simulated_all": len(sims), "simulated_with_selection": len(sels)})
+    duals = gen_orders(ctx, "all", dual=True, simulate=1200 if thorough else 250, seed=ctx.seed + 2, scn="tetra")
+    duals += gen_orders(ctx, "all", select=True, maxpre=2, dual=True, simulate=1600 if thorough else 350, seed=ctx.seed + 3, scn="tetra")
+    duals = [h for h in duals if any(s[0] == "dual" for s in h)]
+    ctx.note("orders", {"core_permutations": len(perms), "simulated_all": len(sims), "simulated_with_selection": len(sels), "simulated_with_dual": len(duals)})
+    rng.shuffle(duals)
+    duals = duals[: 2800 if thorough else 600]
     rng.shuffle(sims)
     rng.shuffle(sels)
+    # -simulate prints a terminal state once per worker that reaches it: keep the requested numbers
+    sims = sims[: 1500 if thorough else 300]
+    sels = sels[: 4000 if thorough else 900]
     cat = catalogue_pool()
     cat_small = [s for s in cat if len(s["mesh"]) <= 15]
     planar = planar_pool(rng, 24 if thorough else 8, 7 if thorough else 5)
@@ -416,8 +453,19 @@ def assemble(ctx, prop, rng, thorough, scope):
             sup = sups[k % len(sups)]
         add(*make_case(prop, "D:%s:%s:%d" % (src["tag"], "+".join(sup) or "none", k), src, h, rng, sup=sup, eo=_eo(rng, k),
                        via=VIAS[k % 2] if mode == 2 else "topology", extra_width=(k // 3) % 2, family="selected"))
+    # --- D2: the dual of a grid / of a selected grid (sources with real geometry: get_dual orders by angle) -----
+    pool_g = cat + planar
+    for k, h in enumerate(duals):
+        src = pool_g[(k * 3) % len(pool_g)]
+        sup = []
+        if k % 3 == 1:
+            sups = SUPS_ANY + (SUPS_MANIFOLD if manifold(src) else [])
+            sup = sups[k % len(sups)]
+        add(*make_case(prop, "D2:%s:%s:%d" % (src["tag"], "+".join(sup) or "none", k), src, h, rng, sup=sup, eo=_eo(rng, k),
+                       via=VIAS[k % 2] if sup else "topology", extra_width=(k // 5) % 2, family="dual"))
+
     # --- F: sample files of the repository, judged against the faces their own face table lists ------
-    for c in file_cases(ctx, prop, rng, [h for h in orders if not any(s[0] == "select" for s in h)] , 4 if thorough else 2):
+    for c in file_cases(ctx, prop, rng, perms, 2 if thorough else 1, only=None if thorough else QUICK_FILES):
         cases.append(c)
     return cases, reqs
 
@@ -429,17 +477,24 @@ SAMPLE_FILES = [
     ("ugrid/ov_RLL10deg_CSne4/ov_RLL10deg_CSne4.ug", False, False, None),
     ("exodus/outCSne8/outCSne8.g", False, True, None),
     ("exodus/mixed/mixed.exo", False, False, None),
-    ("scrip/outCSne8/outCSne8.nc", False, True, None),
+    ("scrip/outCSne8/outCSne8.nc", False, False, None),  # coincident corners are not merged along cube edges: not closed as a table
     ("mpas/QU/mesh.QU.1920km.151026.nc", False, True, {"eoc": "before", "covz": "end", "coez": "second"}),
     ("mpas/QU/mesh.QU.1920km.151026.nc", True, True, {"eoc": "before", "covz": "end", "coez": "second"}),
 ]
 
 
-def file_cases(ctx, prop, rng, orders, per_file):
+QUICK_FILES = ("ugrid/quad-hexagon/grid.nc", "mpas/QU/mesh.QU.1920km.151026.nc")
+
+
+def file_cases(ctx, prop, rng, orders, per_file, only=None):
+    """orders: permutations of the property's core observables (TLC judges a few hundred faces per
+    record: the clauses cost up to O(faces^2) evaluations, so the order is kept to the core set)."""
     from harness import ux as hux
 
     out = []
     for path, dual, closed, mp in SAMPLE_FILES:
+        if only is not None and path not in only:
+            continue
         full = os.path.join(hux.REPO, "test", "meshfiles", path)
         if not os.path.exists(full) or os.path.getsize(full) == 0:
             continue
@@ -452,3 +507,9 @@ def file_cases(ctx, prop, rng, orders, per_file):
                 c["mpasd"] = mp
             out.append(c)
     return out
+
+
+def count_cases(ctx, cases):
+    for c in cases:
+        key = (tuple(map(tuple, c["mesh"])), c["width"], tuple(c["sup_names"]), c["via"], tuple(tuple(s) for s in c["hist"]), c.get("path"))
+        ctx.count(1, key if (len(c["mesh"]) >= 2 or c["via"] == "file") else None)
